@@ -1140,22 +1140,22 @@ package tchannel
 // close: only Active -> StartClose; any other state is an error and the state is left alone.
 //@ func (c *Connection) close(fields ...LogField) (err error)
 //@   nosafety
-//@   modifies allbut errAttempts
+//@   modifies allbut errAttempts, nstopped
 //@   property C07
 
 // The connection's event callbacks (installed by the channel: connection
 // tracking, peer bookkeeping, close notification) send no error frames and do
 // not touch the relay's lookup/admission ghosts (assumed, T4).
 //@ funcfield connectionEvents.OnCloseStateChange(c *Connection)
-//@   modifies allbut errAttempts, closeReq, connErrs, connErrCode, sysErrID, sysErrCode, sysErrMsg, lookupHit, nadmit, admitted, nends, ndec, own, Frame
+//@   modifies allbut errAttempts, closeReq, connErrs, connErrCode, sysErrID, sysErrCode, sysErrMsg, lookupHit, nadmit, admitted, nends, ndec, own, Frame, nstopped
 //@ funcfield connectionEvents.OnActive(c *Connection)
-//@   modifies allbut errAttempts, closeReq, connErrs, connErrCode, sysErrID, sysErrCode, sysErrMsg, lookupHit, nadmit, admitted, nends, ndec, own, Frame
+//@   modifies allbut errAttempts, closeReq, connErrs, connErrCode, sysErrID, sysErrCode, sysErrMsg, lookupHit, nadmit, admitted, nends, ndec, own, Frame, nstopped
 //@ funcfield connectionEvents.OnExchangeUpdated(c *Connection)
-//@   modifies allbut errAttempts, closeReq, connErrs, connErrCode, sysErrID, sysErrCode, sysErrMsg, lookupHit, nadmit, admitted, nends, ndec, own, Frame
+//@   modifies allbut errAttempts, closeReq, connErrs, connErrCode, sysErrID, sysErrCode, sysErrMsg, lookupHit, nadmit, admitted, nends, ndec, own, Frame, nstopped
 
 //@ func (c *Connection) checkExchanges()
 //@   nosafety
-//@   modifies allbut errAttempts, closeReq, connErrs, connErrCode, sysErrID, sysErrCode, sysErrMsg, lookupHit, nadmit, admitted, nends, ndec, own, Frame
+//@   modifies allbut errAttempts, closeReq, connErrs, connErrCode, sysErrID, sysErrCode, sysErrMsg, lookupHit, nadmit, admitted, nends, ndec, own, Frame, nstopped
 //@   property C07
 
 //@ func (ch *Channel) Close()
@@ -1185,7 +1185,7 @@ package tchannel
 
 //@ func (c *Connection) SendSystemError(id uint32, span Span, err error) (sendErr error)
 //@   nosafety
-//@   modifies allbut InboundCallResponse, Relayer, relayItems, relayItem, messageExchange, messageExchangeSet, connFailed, connFailSys, lookupHit, nadmit, admitted, nends, ndec
+//@   modifies allbut InboundCallResponse, Relayer, relayItems, relayItem, messageExchange, messageExchangeSet, connFailed, connFailSys, lookupHit, nadmit, admitted, nends, ndec, nstopped
 //@   defines errAttempts(c) == old(errAttempts(c)) + 1
 //@   property C07 C20
 
